@@ -5,7 +5,7 @@
    stepping; the other operations by the correspondence run (per-identity ledger on both sides). *)
 From Coq Require Import ZArith List Bool Lia.
 From MV Require Import Ast Eval Scalar Machine Model Policy.
-From MV.Proofs Require Import Arith Logic Prim View OpsLocal Guards Drops DrainIt CapHistory Core Refine.
+From MV.Proofs Require Import Arith Logic Prim View OpsLocal Guards Grow Drops DrainIt CapHistory Core Refine Life.
 Import ListNotations.
 Open Scope Z_scope.
 
@@ -92,9 +92,9 @@ Print Assumptions C02_dropping_a_drain_restores_prefix_and_suffix.
 Theorem C02_every_history_refines_the_list_model :
   forall cfg, cfg_ok cfg -> needs_drop cfg = true ->
   forall v os s l,
-  vabs cfg s v l -> Forall rop_ok os ->
+  vacc cfg s v l -> Forall rop_ok os ->
   post (run_rops cfg (ncap_of cfg) v os s)
-       (fun _ s' => exists l', rsteps os l l' /\ vabs cfg s' v l')
+       (fun _ s' => exists l', rsteps os l l' /\ vacc cfg s' v l')
        (fun _ => False).
 Proof. intros cfg Hc Hd. exact (history_refines_list_spec cfg (ncap_of cfg) Hc (ncap_policy cfg) Hd). Qed.
 
@@ -108,11 +108,57 @@ Example C02_refinement_hypotheses_satisfiable :
   let s := {| heap := []; vecs := [Some Sentinel]; iters := []; ledger := fun _ => Fresh; payload := fun _ => 0;
               next_elem := 0; drop_panics := [1; 3]; clone_panics := []; alloc_fail := None;
               alloc_limit := 1073741824; events := [] |} in
-  cfg_ok cfg /\ vabs cfg s 0 [] /\
+  cfg_ok cfg /\ vacc cfg s 0 [] /\
   Forall rop_ok [RPush 5; RInsert 0 6; RInsert 7 8; RCap CShrinkToFit; RSwapRemove 0; RPop; RTruncate 0; RRemove 3].
 Proof.
-  split; [repeat split; reflexivity|]. split; [left; split; reflexivity|].
+  split; [repeat split; reflexivity|]. split; [split; [left; split; reflexivity|split; [simpl; lia|simpl; intros; lia]]|].
   repeat constructor; simpl; lia.
 Qed.
 
 Print Assumptions C02_every_history_refines_the_list_model.
+
+(* ---- THE WHOLE LIFE of a vector: created empty, ANY history over push / insert / pop / remove /
+   swap_remove / truncate / reserve / reserve_exact / shrink_to_fit / shrink_to (any arguments, any
+   panicking destructors, panics caught between the calls), then dropped -- whether the drop returns
+   or unwinds: every element that was ever created has been handed to the caller or destroyed (nothing
+   is leaked); that none is destroyed or handed out twice is part of "no undefined behaviour", which
+   `post` asserts (drop_elem / hand_out on a non-live element are UB in the machine). ---- *)
+Theorem C02_whole_life_nothing_lost_nothing_destroyed_twice :
+  forall cfg, cfg_ok cfg -> needs_drop cfg = true ->
+  forall v os s,
+  vec_sentinel s v -> all_settled s -> Forall rop_ok os ->
+  let Q := fun s' => all_settled s' /\ nth_error (vecs s') v = Some None in
+  post (life cfg (ncap_of cfg) v os s) (fun _ s' => Q s') Q.
+Proof. intros cfg Hc Hd. exact (whole_life_nothing_lost cfg (ncap_of cfg) Hc (ncap_policy cfg) Hd). Qed.
+
+Theorem C02_all_settled_means :
+  forall s, all_settled s <-> (0 <= next_elem s /\ forall e, 0 <= e < next_elem s -> ledger s e = Out \/ ledger s e = Dropped).
+Proof.
+  intros s. unfold all_settled, accounted. split; intros [H1 H2]; (split; [exact H1|]); intros e He.
+  - destruct (H2 e He) as [[]|H]; exact H.
+  - right. exact (H2 e He).
+Qed.
+
+(* dropping a vector that holds l: every element of l destroyed, nothing else touched, the name gone,
+   the block dead and given back with exactly its layout -- or, when a destructor panics, every element
+   of l still destroyed and the block leaked *)
+Theorem C02_drop_destroys_every_element_once :
+  forall cfg, cfg_ok cfg -> needs_drop cfg = true -> forall s v l,
+  vabs cfg s v l ->
+  post (drop_vec cfg v s)
+    (fun _ s' => dropped_all s s' v l /\
+                 (vec_sentinel s v /\ heap s' = heap s /\ events s' = events s \/
+                  exists b bl, vec_at s v b bl /\ nth_error (heap s') b = Some (kill bl) /\
+                               exists evs, events s' = EvDealloc (b_size bl) (b_align bl) :: evs))
+    (fun s' => dropped_all s s' v l /\ heap s' = heap s).
+Proof. exact drop_vec_abs. Qed.
+
+Example C02_whole_life_hypotheses_satisfiable :
+  let s := {| heap := []; vecs := [Some Sentinel]; iters := []; ledger := fun _ => Fresh; payload := fun _ => 0;
+              next_elem := 0; drop_panics := [1; 3]; clone_panics := []; alloc_fail := None;
+              alloc_limit := 1073741824; events := [] |} in
+  vec_sentinel s 0 /\ all_settled s.
+Proof. split; [reflexivity|]. split; [simpl; lia|simpl; intros; lia]. Qed.
+
+Print Assumptions C02_whole_life_nothing_lost_nothing_destroyed_twice.
+Print Assumptions C02_drop_destroys_every_element_once.
